@@ -16,6 +16,7 @@ EXPLANATION = (
     "&mut Storage with failed-blob ids and quarantine-dir ids among the origins; H7 the quarantined blob path only flows into "
     "rename (as source) and the index remover. Decides this ownership/effect structure, not the byte comparison itself.")
 EXPLANATION += (" " + 'H6 also requires that two id sources meeting on the way into the counter are joined by max, not by a selector such as or / unwrap_or / min.')
+EXPLANATION += (" " + 'H6 also: in a body that seeds the counter, every call that can reach the fetch_add on next_blob_id is dominated by a seeding store / fetch_max whose origins include the quarantined ids.')
 ASSUMPTIONS = ["class-hierarchy call resolution over-approximates reachability (closures attributed at construction)"]
 
 MOD_OWNERS = {
